@@ -2,9 +2,20 @@
     Property theorems only; the model is Addr/Taint.v (disk effects of
     waddrmgr as symbolic terms), proofs are in Addr/TaintProofs.v.
 
-    Reading guide.  [run sp h] is the manager after the operation history
-    [h] (one operation = one committed database transaction); [boundaries sp
-    init h] lists the state after every prefix, i.e. every commit boundary.
+    Reading guide.  [T : table] says, for every write site of the code (a
+    place where the result of an [X.Encrypt(arg)] call is stored), which key
+    [X] is and what class of data [arg] is; the model's operations build
+    every sealed field from it ([sealT T site ctx]).  The table of the
+    current tree, [Generated.TaintSites.table], is regenerated from the
+    source by lib/extract_c04.py (receiver of each Encrypt call, origin of
+    its argument).  All theorems hold for EVERY table that passes the
+    decidable check [table_ok]; [C04_current_table_ok] discharges that check
+    for the regenerated table by computation - it is the one obligation that
+    breaks when a source edit seals a secret under a key of the public chain
+    (or lets private material survive the conversion in a field that is kept).
+    [run T sp h] is the manager after the operation history [h] (one
+    operation = one committed database transaction); [boundaries T sp init h]
+    lists the state after every prefix, i.e. every commit boundary.
     [sp] says whether deletePrivateKeys strips secret taproot script rows;
     the value for the current tree is Generated.TaintSites.wo_strips_taproot.
     [occurs a c t]: atom [a] occurs in the stored term [t] below the wrappers
@@ -20,83 +31,136 @@
                     manager's namespace - the transaction store necessarily
                     holds output scripts in the clear once a transaction is
                     recorded, which is the property's "until");
-      public      - anywhere. *)
+      public      - anywhere.
+
+    What is NOT claimed.  The theorems speak about the LIVE rows of the
+    database.  bbolt does not overwrite the pages a transaction frees: after
+    a conversion to watching-only the file image still holds, in such pages,
+    the ciphertexts of the deleted rows (main/mpriv parameters, cpriv,
+    cscript, mhdpriv, ctpriv, account and imported private keys), and a
+    holder of the OLD private passphrase can open them.  The property's text
+    asks for "no ... key ... in raw or serialized text form" at every commit
+    point (ciphertext is neither) and, after conversion, that "no passphrase
+    unlocks it and no call returns private material" (behaviour of the
+    reopened wallet): freed pages are outside its letter.  The harness
+    measures that residue (evidence: observations) and does not raise it. *)
 From Coq Require Import String.
 From Verif Require Import Base.Prelude Addr.Taint Addr.TaintProofs.
 From Verif Require Generated.TaintSites.
+From Verif Require Addr.TaintCorr.
 Local Open Scope N_scope.
+
+(** The table regenerated from the current source passes the check, and so
+    does every other place of the source where an Encrypt result is stored. *)
+Theorem C04_current_table_ok : table_ok TaintSites.table = true.
+Proof. vm_compute. reflexivity. Qed.
+Print Assumptions C04_current_table_ok.
+
+Theorem C04_all_source_sites_safe : TaintCorr.source_sites_ok = true.
+Proof. vm_compute. reflexivity. Qed.
+Print Assumptions C04_all_source_sites_safe.
+
+(** what [table_ok] asks of each site, spelled out: the sealing key is of the
+    private chain whenever the content is secret (in both readings of the
+    script key), passphrases and the seed are never sealed at all, and a
+    field that survives the conversion holds nothing private *)
+Theorem C04_table_ok_meaning : forall T s,
+  table_ok T = true ->
+  (forall strict, cclass strict (e_content (T s)) = Secret -> priv_key strict (e_key (T s)) = true) /\
+  (forall strict, cclass strict (e_content (T s)) <> Passphrase) /\
+  content_never (e_content (T s)) = false /\
+  (site_survives s = true -> content_private (e_content (T s)) = false).
+Proof. intros T s HT. exact (table_ok_meaning T s HT). Qed.
+Print Assumptions C04_table_ok_meaning.
 
 (** (a)+(b) At every commit boundary of every history, every atom of every
     stored key and value sits in an allowed context - in both readings of
     the script key - and the seed and the derived address private keys are
     not written in any form. *)
-Theorem C04_every_commit_boundary : forall sp h st r t a c,
-  In st (boundaries sp init h) -> In r (dsk st) -> In t (fields r) -> occurs a c t ->
+Theorem C04_every_commit_boundary : forall T sp h st r t a c,
+  table_ok T = true ->
+  In st (boundaries T sp init h) -> In r (dsk st) -> In t (fields r) -> occurs a c t ->
   allowed false a c /\ allowed true a c /\ never_atom a = false.
 Proof.
-  intros sp h st r t a c Hst Hr Ht Hoc.
-  destruct (every_boundary_ok sp h st r Hst Hr) as (H1 & H2 & H3).
+  intros T sp h st r t a c HT Hst Hr Ht Hoc.
+  destruct (every_boundary_ok T sp h st r HT Hst Hr) as (H1 & H2 & H3).
   split; [exact (ok_row_occurrence false r t a c H1 Ht Hoc)|].
   split; [exact (ok_row_occurrence true r t a c H2 Ht Hoc)|].
   exact (avoids_never_occurrence r t a c H3 Ht Hoc).
 Qed.
 Print Assumptions C04_every_commit_boundary.
 
+(** The property read directly: "anything secret is readable only with the
+    private passphrase".  A reader who holds the file at any commit boundary
+    and the PUBLIC passphrase only ([reads]: he opens a sealing when he holds
+    its key; he holds the master public key, the all-zero script key in the
+    strict reading, and every key whose bytes he can read) learns no secret
+    atom and no passphrase. *)
+Theorem C04_public_passphrase_reader_learns_no_secret : forall T sp h st strict a,
+  table_ok T = true -> In st (boundaries T sp init h) -> reads strict (dsk st) a ->
+  class_of strict a <> Secret /\ class_of strict a <> Passphrase.
+Proof. exact public_reader_boundary. Qed.
+Print Assumptions C04_public_passphrase_reader_learns_no_secret.
+
 (** the commit boundaries are the states after the non-empty prefixes *)
-Theorem C04_boundaries_are_prefixes : forall sp h st,
-  In st (boundaries sp init h) -> exists n, st = run sp (firstn (S n) h).
-Proof. intros sp h st H. exact (boundaries_prefix sp h init st H). Qed.
+Theorem C04_boundaries_are_prefixes : forall T sp h st,
+  In st (boundaries T sp init h) -> exists n, st = run T sp (firstn (S n) h).
+Proof. intros T sp h st H. exact (boundaries_prefix T sp h init st H). Qed.
 Print Assumptions C04_boundaries_are_prefixes.
 
 (** Lock and Unlock write nothing. *)
-Theorem C04_lock_unlock_no_disk_effect : forall sp st o,
+Theorem C04_lock_unlock_no_disk_effect : forall T sp st o,
   (o = OLock \/ exists b, o = OUnlock b) ->
-  dsk (fst (step sp st o)) = dsk st /\ (forall ws, writes sp st o = Some ws -> ws = []).
+  dsk (fst (step T sp st o)) = dsk st /\ (forall ws, writes T sp st o = Some ws -> ws = []).
 Proof.
-  intros sp st o Ho. split.
-  - exact (lock_unlock_no_disk_effect sp st o Ho).
-  - intros ws. exact (lock_unlock_writes_nothing sp st o ws Ho).
+  intros T sp st o Ho. split.
+  - exact (lock_unlock_no_disk_effect T sp st o Ho).
+  - intros ws. exact (lock_unlock_writes_nothing T sp st o ws Ho).
 Qed.
 Print Assumptions C04_lock_unlock_no_disk_effect.
 
 (** (c) After a conversion to watching-only (of an existing manager) and any
-    continuation - reopen included - a stored row holds no private material
-    in ANY form, sealed or not (no secret atom, no private passphrase not even
-    hashed), unless it is a secret taproot script row and the code does not
-    strip those. *)
-Theorem C04_watching_only_general : forall sp h1 h2 r,
-  created (run sp h1) = true ->
-  In r (dsk (run sp (h1 ++ OConvert :: h2))) ->
+    continuation - reopen included - a LIVE row of the database holds no
+    private material in any form, sealed or not (no secret atom, no private
+    passphrase not even hashed), unless it is a secret taproot script row and
+    the code does not strip those.  (Pages that bbolt has freed are not rows:
+    see "What is NOT claimed" above.) *)
+Theorem C04_watching_only_general : forall T sp h1 h2 r,
+  table_ok T = true ->
+  created (run T sp h1) = true ->
+  In r (dsk (run T sp (h1 ++ OConvert :: h2))) ->
   (forall t a c, In t (fields r) -> occurs a c t -> private_atom a = false)
   \/ (sp = false /\ tr_secret_row r = true).
 Proof.
-  intros sp h1 h2 r C Hin.
-  destruct (watching_only_rows sp h1 h2 r C Hin) as [H|H]; [left|right; exact H].
+  intros T sp h1 h2 r HT C Hin.
+  destruct (watching_only_rows T sp h1 h2 r HT C Hin) as [H|H]; [left|right; exact H].
   intros t a c Ht Hoc. exact (clean_row_occurrence r t a c H Ht Hoc).
 Qed.
 Print Assumptions C04_watching_only_general.
 
 (** ... hence no private material at all if the code strips taproot rows, *)
-Theorem C04_watching_only_if_stripped : forall h1 h2 r t a c,
-  created (run true h1) = true ->
-  In r (dsk (run true (h1 ++ OConvert :: h2))) ->
+Theorem C04_watching_only_if_stripped : forall T h1 h2 r t a c,
+  table_ok T = true ->
+  created (run T true h1) = true ->
+  In r (dsk (run T true (h1 ++ OConvert :: h2))) ->
   In t (fields r) -> occurs a c t -> private_atom a = false.
 Proof.
-  intros h1 h2 r t a c C Hin Ht Hoc.
-  exact (clean_row_occurrence r t a c (watching_only_clean_if_stripped h1 h2 r C Hin) Ht Hoc).
+  intros T h1 h2 r t a c HT C Hin Ht Hoc.
+  exact (clean_row_occurrence r t a c (watching_only_clean_if_stripped T h1 h2 r HT C Hin) Ht Hoc).
 Qed.
 Print Assumptions C04_watching_only_if_stripped.
 
 (** ... and, on any tree, for every history that imports no secret taproot
     script (the decidable predicate K = [no_secret_taproot]). *)
-Theorem C04_watching_only_outside_K : forall sp h1 h2 r t a c,
+Theorem C04_watching_only_outside_K : forall T sp h1 h2 r t a c,
+  table_ok T = true ->
   no_secret_taproot (h1 ++ OConvert :: h2) = true ->
-  created (run sp h1) = true ->
-  In r (dsk (run sp (h1 ++ OConvert :: h2))) ->
+  created (run T sp h1) = true ->
+  In r (dsk (run T sp (h1 ++ OConvert :: h2))) ->
   In t (fields r) -> occurs a c t -> private_atom a = false.
 Proof.
-  intros sp h1 h2 r t a c K C Hin Ht Hoc.
-  exact (clean_row_occurrence r t a c (watching_only_clean_outside_K sp h1 h2 r K C Hin) Ht Hoc).
+  intros T sp h1 h2 r t a c HT K C Hin Ht Hoc.
+  exact (clean_row_occurrence r t a c (watching_only_clean_outside_K T sp h1 h2 r HT K C Hin) Ht Hoc).
 Qed.
 Print Assumptions C04_watching_only_outside_K.
 
@@ -104,9 +168,9 @@ Print Assumptions C04_watching_only_outside_K.
     address/account index levels, used flags) that exists at some point still
     exists after any continuation, conversion included: all addresses stay
     known; and the conversion only blanks private fields. *)
-Theorem C04_addresses_survive : forall sp h1 h2 p t,
-  has p (Hash t) (dsk (run sp h1)) = true ->
-  has p (Hash t) (dsk (run sp (h1 ++ h2))) = true.
+Theorem C04_addresses_survive : forall T sp h1 h2 p t,
+  has p (Hash t) (dsk (run T sp h1)) = true ->
+  has p (Hash t) (dsk (run T sp (h1 ++ h2))) = true.
 Proof. exact addresses_survive. Qed.
 Print Assumptions C04_addresses_survive.
 
@@ -122,28 +186,39 @@ Print Assumptions C04_conversion_keeps_public_fields.
 (** After the conversion the manager is watching-only for good (the flag a
     later Open reads is set): Unlock answers ErrWatchingOnly whatever the
     passphrase, and every call that could hand out private material is
-    refused. *)
-Theorem C04_watching_only_api : forall sp h1 h2 c,
-  created (run sp h1) = true ->
-  let st := run sp (h1 ++ OConvert :: h2) in
+    refused.  (The answers of the real accessors of a reopened watching-only
+    manager are compared with [api] by the correspondence, code 9.) *)
+Theorem C04_watching_only_api : forall T sp h1 h2 c,
+  created (run T sp h1) = true ->
+  let st := run T sp (h1 ++ OConvert :: h2) in
   wo st = true /\ disk_wo (dsk st) = true /\
   refuses (api st c) = true /\ api st CUnlock = ErrWatchingOnly.
 Proof.
-  intros sp h1 h2 c C st.
-  destruct (after_convert sp true h1 h2 (admissible_true_all _) C) as [_ Hw].
-  split; [exact Hw|]. split; [exact (watching_only_flag_on_disk sp h1 h2 C)|].
-  exact (watching_only_api sp h1 h2 c C).
+  intros T sp h1 h2 c C st.
+  split; [exact (proj2 (after_convert_wo T sp h1 h2 C))|].
+  split; [exact (watching_only_flag_on_disk T sp h1 h2 C)|].
+  exact (watching_only_api T sp h1 h2 c C).
 Qed.
 Print Assumptions C04_watching_only_api.
 
-(** The statements above instantiated at the flag regenerated from the
-    current source of deletePrivateKeys. *)
-Theorem C04_current_tree : forall h1 h2 r,
-  created (run TaintSites.wo_strips_taproot h1) = true ->
-  In r (dsk (run TaintSites.wo_strips_taproot (h1 ++ OConvert :: h2))) ->
-  (forall t a c, In t (fields r) -> occurs a c t -> private_atom a = false)
-  \/ (TaintSites.wo_strips_taproot = false /\ tr_secret_row r = true).
-Proof. exact (C04_watching_only_general TaintSites.wo_strips_taproot). Qed.
+(** The statements above instantiated at the table and the flag regenerated
+    from the current source. *)
+Theorem C04_current_tree : forall h,
+  let T := TaintSites.table in
+  let sp := TaintSites.wo_strips_taproot in
+  (forall st r t a c, In st (boundaries T sp init h) -> In r (dsk st) -> In t (fields r) -> occurs a c t ->
+     allowed false a c /\ allowed true a c /\ never_atom a = false) /\
+  (forall st strict a, In st (boundaries T sp init h) -> reads strict (dsk st) a ->
+     class_of strict a <> Secret /\ class_of strict a <> Passphrase) /\
+  (forall h1 h2 r, h = h1 ++ OConvert :: h2 -> created (run T sp h1) = true -> In r (dsk (run T sp h)) ->
+     (forall t a c, In t (fields r) -> occurs a c t -> private_atom a = false)
+     \/ (sp = false /\ tr_secret_row r = true)).
+Proof.
+  intros h T sp. split; [|split].
+  - intros st r t a c. exact (C04_every_commit_boundary T sp h st r t a c C04_current_table_ok).
+  - intros st strict a. exact (C04_public_passphrase_reader_learns_no_secret T sp h st strict a C04_current_table_ok).
+  - intros h1 h2 r ->. exact (C04_watching_only_general T sp h1 h2 r C04_current_table_ok).
+Qed.
 Print Assumptions C04_current_tree.
 
 (** S5 as a lemma: the key named cryptoScript is a constant in memory. *)
@@ -154,6 +229,8 @@ Print Assumptions C04_script_key_is_not_secret.
 
 (* ------------------------------------------------------------ non-vacuity *)
 
+Definition T0 := TaintSites.table.
+
 Definition ex_hist : list op :=
   [OCreate; OReopen; OUnlock true; ONewAccount (84, 0) 5 6; ODerive (84, 0) 1 false 3;
    OImportPriv (44, 0) 1 true; OImportScript (84, 0) 2 34 (KTaproot true);
@@ -163,13 +240,14 @@ Definition ex_hist : list op :=
 (** the disk really holds sealed secrets, sealed sensitive data and the
     passphrase digests before the conversion ... *)
 Example C04_nonvacuous_rows :
-  let d := dsk (run false ex_hist) in
+  let d := dsk (run T0 false ex_hist) in
   length d = 87%nat /\
   get [BMain] (kstr "mhdpriv") d = Some [Enc KCryptoPriv (Clear SMasterXprv)] /\
+  get [BMain] (kstr "mhdpub") d = Some [Enc KCryptoPub (Clear PMasterXpub)] /\
   get [BMain] (kstr "cpriv") d = Some [Enc KMasterPriv (Clear SKeyPriv)] /\
   get [BMain] (kstr "mpriv") d = Some (master_params true 1) /\
   get (p_scope (84, 0) ++ [BAddr]) (kaddr (AChain (84, 0) 1 false 2)) d = Some chain_val /\
-  get (p_scope (44, 0) ++ [BAddr]) (kaddr (AImp 1)) d = Some (import_val 1 true true) /\
+  get (p_scope (44, 0) ++ [BAddr]) (kaddr (AImp 1)) d = Some (import_val T0 1 true true) /\
   existsb (fun r => negb (clean_row r)) d = true.
 Proof. vm_compute. repeat split. Qed.
 
@@ -189,16 +267,45 @@ Example C04_checker_rejects :
   ok true false false false (Enc KCryptoScript (Clear (SImpPriv 1))) = false.
 Proof. vm_compute. repeat split. Qed.
 
-(** ... and conversion: with the current code ([sp = false]) exactly the
-    secret taproot script row keeps private material (the witness
-    [C04_watch_only_residue_at_K]); with taproot stripping, or without that
-    import, nothing does; all addresses are still there. *)
+(** ... [table_ok] is not trivially true either: the table of the current
+    tree with ONE entry changed the way a wrong-key regression would change
+    it is rejected - the master private key sealed into the master-HD-PUBLIC
+    row under the public crypto key (same length, never read back, survives
+    the conversion); an imported private key sealed under the public or the
+    script crypto key; the private crypto key sealed under the master PUBLIC
+    key; a passphrase sealed anywhere; private material in a field that the
+    conversion keeps - *)
+Definition site_eq_dec : forall a b : site, {a = b} + {a <> b}.
+Proof. decide equality. Defined.
+
+Definition with_entry (s0 : site) (e : entry) : table :=
+  fun s => if site_eq_dec s s0 then e else T0 s.
+
+Example C04_table_ok_rejects :
+  table_ok (with_entry XCreateMhdPub {| e_key := KCryptoPub; e_content := CtMasterXprv |}) = false /\
+  table_ok (with_entry XImpPriv {| e_key := KCryptoPub; e_content := CtPrivKey |}) = false /\
+  table_ok (with_entry XImpPriv {| e_key := KCryptoScript; e_content := CtPrivKey |}) = false /\
+  table_ok (with_entry XCreateCPriv {| e_key := KMasterPub; e_content := CtKeyPriv |}) = false /\
+  table_ok (with_entry XNewAcctPub {| e_key := KCryptoPub; e_content := CtAcctXprv |}) = false /\
+  table_ok (with_entry XNewAcctPub {| e_key := KCryptoPriv; e_content := CtAcctXprv |}) = false /\
+  table_ok (with_entry XScriptSecret {| e_key := KCryptoPub; e_content := CtSecretScript |}) = false /\
+  table_ok (with_entry XCreateMhdPriv {| e_key := KCryptoPriv; e_content := CtPassphrase |}) = false /\
+  table_ok (with_entry XCreateMhdPriv {| e_key := KCryptoPriv; e_content := CtUnknown |}) = false /\
+  table_ok (with_entry XImpPub {| e_key := KCryptoPriv; e_content := CtPubKey |}) = true.
+Proof. vm_compute. repeat split. Qed.
+
+(** ... and conversion: for a tree whose deletePrivateKeys has no case for
+    taproot script rows ([sp = false]: the code before fix 71c2e41) exactly
+    the secret taproot script row keeps private material (the witness
+    [C04_watch_only_residue_at_K]); with taproot stripping ([sp = true], the
+    current tree: TaintSites.wo_strips_taproot), or without that import,
+    nothing does; all addresses are still there. *)
 Example C04_watch_only_residue_at_K :
-  let d := dsk (run false (ex_hist ++ [OConvert; OReopen; ODerive (84, 0) 1 false 1])) in
+  let d := dsk (run T0 false (ex_hist ++ [OConvert; OReopen; ODerive (84, 0) 1 false 1])) in
   filter (fun r => negb (clean_row r)) d =
     [ {| r_path := p_scope (84, 0) ++ [BAddr]; r_key := kaddr (AScr 2 32);
-         r_val := script_val 2 34 (KTaproot true) |} ] /\
-  wo (run false (ex_hist ++ [OConvert; OReopen])) = true /\
+         r_val := script_val T0 2 34 (KTaproot true) |} ] /\
+  wo (run T0 false (ex_hist ++ [OConvert; OReopen])) = true /\
   has (p_scope (84, 0) ++ [BAddr]) (kaddr (AChain (84, 0) 1 false 3)) d = true /\
   has (p_scope (84, 0) ++ [BAddr]) (kaddr (AScr 3 20)) d = true /\
   get [BMain] (kstr "mpriv") d = None /\ get [BMain] (kstr "cpriv") d = None /\
@@ -206,8 +313,27 @@ Example C04_watch_only_residue_at_K :
 Proof. vm_compute. repeat split. Qed.
 
 Example C04_watch_only_clean_examples :
-  forallb clean_row (dsk (run true (ex_hist ++ [OConvert; OReopen]))) = true /\
+  forallb clean_row (dsk (run T0 true (ex_hist ++ [OConvert; OReopen]))) = true /\
   forallb clean_row
-    (dsk (run false (filter (fun o => negb (secret_taproot_import o)) ex_hist ++ [OConvert; OReopen]))) = true /\
+    (dsk (run T0 false (filter (fun o => negb (secret_taproot_import o)) ex_hist ++ [OConvert; OReopen]))) = true /\
   no_secret_taproot (filter (fun o => negb (secret_taproot_import o)) ex_hist ++ [OConvert; OReopen]) = true.
 Proof. vm_compute. repeat split. Qed.
+
+(** the reader theorem is about a reader who really reads something: with the
+    public passphrase he learns the master public key ... *)
+Example C04_reader_reads_public_data :
+  reads false (dsk (run T0 false ex_hist)) PMasterXpub.
+Proof.
+  eapply reads_field with (r := {| r_path := [BMain]; r_key := kstr "mhdpub"; r_val := [Enc KCryptoPub (Clear PMasterXpub)] |})
+                          (t := Enc KCryptoPub (Clear PMasterXpub)) (c := [WEnc KCryptoPub]).
+  - vm_compute. tauto.
+  - simpl. tauto.
+  - repeat constructor.
+  - constructor; [|constructor]. apply holds_cpub.
+    eapply reads_field with (r := {| r_path := [BMain]; r_key := kstr "cpub"; r_val := [Enc KMasterPub (Clear PKeyPub)] |})
+                            (t := Enc KMasterPub (Clear PKeyPub)) (c := [WEnc KMasterPub]).
+    + vm_compute. tauto.
+    + simpl. tauto.
+    + repeat constructor.
+    + constructor; [apply holds_master_pub|constructor].
+Qed.
